@@ -22,4 +22,20 @@ CLAIMS = {
               "hash/eq consistency of ChannelIdentifier (C19 states none)."),
         technique="static analysis: Boolean normal form by truth table over extracted atoms; loop summary by path enumeration",
     ),
+    "C05": dict(
+        text=("Decides the structural half of copy faithfulness for every class instead of for sampled circuits: for each "
+              "of the 27 concrete operation classes, both link classes and the acquisition strategy, the MRO-resolved "
+              "copy() is evaluated symbolically and must construct the class itself, passing every init-field of its own "
+              "dataclass (same value; link / strategy fields through .copy(<the lookup parameter>)); the composite copy is "
+              "a loop summary (all nodes, parents first; copy-with-lookup, register, add, unconditional and in order); "
+              "link copies map their references through the lookup; lookup-key classes are hashable and their generated "
+              "equality must compare all structural state; copies own a fresh graph, nesting uses a copy, repeat uses a "
+              "fresh copy of a pre-loop snapshot per iteration; registry re-targeting goes through the lookup. "
+              "These are necessary conditions of the behaviour: breaking any of them changes what a copy reports."),
+        note=("Decided: per-class field completeness, link transfer, lookup discipline, key identity, fresh structure. Not "
+              "decided: equality of schedules as numbers (follows from C01 for faithful links) and independence under "
+              "arbitrary later mutation beyond 'no structural object is shared'. Trusted: dataclass semantics of "
+              "init/compare/unsafe_hash as documented; duration/repetition strategies are value objects shared on purpose."),
+        technique="static analysis: symbolic evaluation of every copy() against dataclass metadata; loop summaries; eq/hash kind from decorator parameters",
+    ),
 }
